@@ -1017,3 +1017,208 @@ class MakeKey(Kernel):
 
 
 KERNELS += [MakeKey]
+
+
+# ------------------------------------------------------------------ collect_producers (which rank edges an input contributes)
+
+
+class CPPort(Obj):
+    cls = "WiringPortRef"
+
+    def __init__(self, k, ident):
+        Obj.__init__(self, name="port_%s" % (ident,))
+        self.k, self.ident = k, ident          # ident: "root" | "resolved" | child index (z3 Int)
+
+    def kind(self):
+        if isinstance(self.ident, str):
+            if self.ident == "root":
+                return self.k.kind
+            raise Gap("attribute of the resolved port read outside the recursive call")
+        return self.k.ckind[self.ident]
+
+    def _is(self, v):
+        return self.kind() == v
+
+    def m_is_delayed_source(self, I, a, n): return self._is(4)
+    def m_is_peered_source(self, I, a, n): return self._is(1)
+    def m_is_structural_source(self, I, a, n): return self._is(2)
+    def m_is_null_source(self, I, a, n): return self._is(5)
+    def m_is_boundary_source(self, I, a, n): return self._is(3)
+    def m_is_unbound_source(self, I, a, n): return self._is(0)
+
+    def m_peered_node(self, I, a, n):
+        if isinstance(self.ident, str):
+            if self.ident == "root":
+                return self.k.node
+            raise Gap("attribute of the resolved port read outside the recursive call")
+        return self.k.cnode[self.ident]
+
+    def m_structural_children(self, I, a, n):
+        if not (isinstance(self.ident, str) and self.ident == "root"):
+            raise Gap("children of a derived port read outside the recursive call")
+        k = self.k
+        return Vec(I.ctx, "children", length=k.nchildren, elem=lambda j: CPPort(k, j))
+
+    def m_delayed_state(self, I, a, n):
+        # reading the placeholder directly bypasses resolve_delayed_source: allowed, but what is read is opaque
+        return Ptr(DelayedState(self.k), I.ctx.fresh("delayed_state_null", "bool"))
+
+
+class DelayedState(Obj):
+    cls = "WiringDelayedBindingState"
+
+    def __init__(self, k):
+        Obj.__init__(self, name="delayed_state")
+        self.k = k
+
+    def member(self, ctx, name, node):
+        if name == "source":
+            return Opt(ctx.fresh("placeholder_bound", "bool"), OpaquePort(self.k))
+        raise Gap("delayed state member %s" % name)
+
+
+class OpaquePort(Obj):
+    """the port a placeholder is bound to, read without resolving it: every observation is arbitrary"""
+    cls = "WiringPortRef(bound)"
+
+    def __init__(self, k):
+        Obj.__init__(self, name="bound_port")
+        self.k = k
+
+    def m_is_peered_source(self, I, a, n): return I.ctx.fresh("bound_is_peered", "bool")
+    def m_is_delayed_source(self, I, a, n): return I.ctx.fresh("bound_is_delayed", "bool")
+    def m_peered_node(self, I, a, n): return I.ctx.fresh("bound_node")
+
+
+class OwnedSet(Obj):
+    cls = "std::unordered_set<const WiringInstance*>"
+
+    def __init__(self, k):
+        Obj.__init__(self, name="owned")
+        self.k = k
+
+    def m_contains(self, I, a, n):
+        return self.k.owned[I.ctx.rv(a[0])]
+
+
+class CollectProducers(Kernel):
+    tu = TU
+    name = "graph_wiring.cpp:collect_producers"
+    fn_name = "collect_producers"
+    filter = "collect_producers"
+    property_ids = ("C01", "C06")
+    scope = {"lo": 0, "hi": 3}
+    title = "collect_producers: an input contributes a rank edge from every owned producer behind it, through delayed bindings and " \
+            "structural sources"
+
+    def setup(self, I):
+        ctx = I.ctx
+        self.kind = z3.Int("source_kind")           # 0 unbound, 1 peered, 2 structural, 3 boundary, 4 delayed, 5 null
+        self.node = z3.Int("peered_node")
+        self.nchildren = z3.Int("n_children")
+        self.owned = z3.Array("owned", I_, B_)
+        self.ckind, self.cnode = z3.Array("child_kind", I_, I_), z3.Array("child_node", I_, I_)
+        ctx.assume(z3.And(self.kind >= 0, self.kind <= 5, self.nchildren >= 0))
+        ctx.assume(z3.ForAll([qk], z3.And(self.ckind[qk] >= 0, self.ckind[qk] <= 5)))
+        g = Obj("ghost", "cg")
+        self.g = g
+        ctx.store[(g.oid, "pushed")] = z3.IntVal(0)              # pushes for the root port itself
+        ctx.store[(g.oid, "pushed_node")] = z3.IntVal(-9)
+        ctx.store[(g.oid, "rec_resolved")] = z3.IntVal(0)
+        ctx.store[(g.oid, "crec")] = z3.K(I_, z3.IntVal(0))      # recursive calls per child
+        ctx.store[(g.oid, "cpush")] = z3.K(I_, z3.IntVal(0))     # inline pushes while visiting child j
+        ctx.store[(g.oid, "cpush_node")] = z3.K(I_, z3.IntVal(-9))
+        self.producers = Obj("std::vector<const WiringInstance*>", "producers")
+        k = self
+
+        def push(I_2, a, n):
+            c = I_2.ctx
+            try:
+                j = k.range_pos(I_2)
+            except Exception:
+                j = None
+            if j is None:
+                c.write(Loc((g.oid, "pushed")), c.store[(g.oid, "pushed")] + 1)
+                c.write(Loc((g.oid, "pushed_node")), c.rv(a[0]))
+            else:
+                c.write(Loc((g.oid, "cpush")), z3.Store(c.store[(g.oid, "cpush")], j, c.store[(g.oid, "cpush")][j] + 1))
+                c.write(Loc((g.oid, "cpush_node")), z3.Store(c.store[(g.oid, "cpush_node")], j, c.rv(a[0])))
+            return VOID
+        self.producers.m_push_back = push
+        self.owned_set = OwnedSet(self)
+        return None, {"source": CPPort(self, "root"), "producers": self.producers, "owned": self.owned_set}
+
+    def function_handler(self, name, node, callee_node):
+        g = self.g
+        if name == "resolve_delayed_source":
+            def res(I, a, n):
+                p = I.ctx.rv(a[0])
+                if not isinstance(p, CPPort) or not (isinstance(p.ident, str) and p.ident == "root"):
+                    raise Gap("resolve_delayed_source of something that is not this source")
+                return CPPort(self, "resolved")
+            return res
+        if name == "collect_producers":
+            def rec(I, a, n):
+                c = I.ctx
+                p = c.rv(a[0])
+                ok = c.rv(a[1]) is self.producers and c.rv(a[2]) is self.owned_set
+                c.oblige("callee-pre.recursive-call-on-the-same-accumulator-and-owned-set", z3.BoolVal(ok), kind="callee-pre")
+                if isinstance(p, CPPort) and isinstance(p.ident, str) and p.ident == "resolved":
+                    c.write(Loc((g.oid, "rec_resolved")), c.store[(g.oid, "rec_resolved")] + 1)
+                elif isinstance(p, CPPort) and isinstance(p.ident, z3.ExprRef):
+                    c.write(Loc((g.oid, "crec")), z3.Store(c.store[(g.oid, "crec")], p.ident, c.store[(g.oid, "crec")][p.ident] + 1))
+                else:
+                    raise Gap("recursive collect_producers on an untracked port")
+                return VOID
+            return rec
+        return Kernel.function_handler(self, name, node, callee_node)
+
+    def child_ok(self, ctx, j):
+        """child j contributed exactly what collect_producers(child j) contributes"""
+        g = lambda nm: ctx.store[(self.g.oid, nm)]
+        ck, cn = self.ckind[j], self.cnode[j]
+        by_recursion = z3.And(g("crec")[j] == 1, g("cpush")[j] == 0)
+        inline_peered = z3.And(g("crec")[j] == 0, ck == 1, g("cpush")[j] == z3.If(self.owned[cn], 1, 0),
+                               z3.Implies(self.owned[cn], g("cpush_node")[j] == cn))
+        inline_nothing = z3.And(g("crec")[j] == 0, z3.Or(ck == 3, ck == 5), g("cpush")[j] == 0)
+        return z3.Or(by_recursion, inline_peered, inline_nothing)
+
+    def inv(self, I, ctx):
+        pos = self.range_pos(I)
+        g = lambda nm: ctx.store[(self.g.oid, nm)]
+        yield "children-below-the-cursor-contributed-their-producers,the-rest-untouched", z3.And(
+            pos >= 0, pos <= self.nchildren, g("pushed") == 0, g("rec_resolved") == 0,
+            z3.ForAll([qk], z3.And(z3.Implies(z3.And(qk >= 0, qk < pos), self.child_ok(ctx, qk)),
+                                   z3.Implies(z3.Or(qk < 0, qk >= pos), z3.And(g("crec")[qk] == 0, g("cpush")[qk] == 0)))))
+
+    def frame(self, I, ctx):
+        return [Loc((self.g.oid, nm)) for nm in ("crec", "cpush", "cpush_node")]
+
+    @property
+    def loops(self):
+        return {0: LoopSpec(self.inv, self.frame)}
+
+    def post(self, I, ret):
+        ctx = I.ctx
+        g = lambda nm: ctx.store[(self.g.oid, nm)]
+        k = self.kind
+        none_children = z3.ForAll([qk], z3.And(g("crec")[qk] == 0, g("cpush")[qk] == 0))
+        ctx.oblige("ensures.delayed-source:the-producers-are-those-of-the-resolved-source[C01 never before any node whose output it reads, "
+                   "also through a delayed binding]", z3.Implies(k == 4, z3.And(g("rec_resolved") == 1, g("pushed") == 0, none_children)),
+                   kind="post-normal")
+        ctx.oblige("ensures.peered-source:its-node-is-a-producer-iff-owned[C01]", z3.Implies(k == 1, z3.And(
+            g("pushed") == z3.If(self.owned[self.node], 1, 0), z3.Implies(self.owned[self.node], g("pushed_node") == self.node),
+            g("rec_resolved") == 0, none_children)), kind="post-normal")
+        ctx.oblige("ensures.structural-source:every-child-contributes-its-producers[C01 through a collection or bundle path, whatever "
+                   "the child is: peered, nested structural, or a delayed binding]",
+                   z3.Implies(k == 2, z3.And(g("pushed") == 0, z3.ForAll([qk], z3.Implies(z3.And(qk >= 0, qk < self.nchildren),
+                                                                                          self.child_ok(ctx, qk))))), kind="post-normal")
+        ctx.oblige("ensures.null-or-boundary-source:no-producer", z3.Implies(z3.Or(k == 3, k == 5), z3.And(
+            g("pushed") == 0, g("rec_resolved") == 0, none_children)), kind="post-normal")
+
+    def post_exc(self, I, exc):
+        I.ctx.oblige("raises.logic_error-only-for-an-unbound-source", z3.And(z3.BoolVal(exc.cls == "std::logic_error"),
+                                                                             z3.Or(self.kind == 0, self.kind == 4)), kind="post-exceptional")
+
+
+KERNELS += [CollectProducers]
